@@ -21,14 +21,14 @@ import (
 // recorded history (unique ids, one logical clock).
 
 type offerRec struct {
-	Prod     int    `json:"p"`
-	ID       string `json:"id"`
-	Size     int64  `json:"size"`
-	Call     int64  `json:"call"`
-	Ret      int64  `json:"ret"`
-	Err      string `json:"err"`
-	err      error
-	outcome  error
+	Prod    int    `json:"p"`
+	ID      string `json:"id"`
+	Size    int64  `json:"size"`
+	Call    int64  `json:"call"`
+	Ret     int64  `json:"ret"`
+	Err     string `json:"err"`
+	err     error
+	outcome error
 }
 
 type handRec struct {
